@@ -257,7 +257,7 @@ def ch_e2e(ctx, cases=None) -> Channel:
     temps = vod_templates()
     given = cases
     cases = []
-    for stream in ("bbb", "tears", "syn1", "syn2", "syn3", "syn4", "syn5", "syn6", "syn7", "syn8", "syn9"):
+    for stream in ("bbb", "tears", "syn1", "syn2", "syn3", "syn4", "syn5", "syn6", "syn7", "syn8", "syn9", "bbbd"):
         for name, mode in temps:
             opts = []
             if rng.random() < .5 and mode == "vod":
@@ -268,7 +268,7 @@ def ch_e2e(ctx, cases=None) -> Channel:
                 opts.append("base=0")
             # options that do not change what a static manifest enumerates but travel with its media URLs
             for k, vals, p_ in (("acodec", ["ec-3", "any"], .15), ("events", ["ping"], .15), ("bugs", ["saio"], .1),
-                                ("drm", ["all", "clearkey", "playready-pro"], .25 if stream == "bbb" else 0),
+                                ("drm", ["all", "clearkey", "playready-pro"], .25 if stream in ("bbb", "bbbd") else 0),
                                 ("depth", ["30"], .1), ("start", ["epoch", "today"], .1), ("mup", ["4"], .1)):
                 if rng.random() < p_:
                     opts.append(f"{k}={rng.choice(vals)}")
